@@ -71,6 +71,24 @@ def odd_char_cases():
                 out.append(sk.replace('{}', fill))
     return out
 
+def ascii_boundary_cases():
+    """Every ASCII character (and a few others) directly after a command name,
+    between two letters, after an escape, after an argument group, before a
+    line break that is followed by a group, and inside an item / math body.
+    A rule or table edit that gives ONE character a new role (a name
+    character, a line joiner, a delimiter) shows only on inputs that hold
+    that character at the place concerned.  Deterministic, ~1400 strings."""
+    chars = [chr(i) for i in range(128)] + ['\xa0', '\xe9', '\u2028', '\ufeff']
+    skel = ['\\ab{}cd', 'x{}y', '\\{}a', '\\ab{{p}}{}{{q}}', 'a {}\n{{b}} c', '\\ab{{p}} {}\n{{q}}',
+            '\\begin{{itemize}}\\item a\\ab{}cd\\item b\\end{{itemize}}', '$a\\ab{}cd$',
+            '\\ab{}', '{}\\ab', '\\ab {}\n[o]{{b}} c']
+    out = []
+    for ch in chars:
+        for sk in skel:
+            out.append(sk.format(ch))
+    return out
+
+
 
 def strings_upto(alphabet, maxlen, minlen=0):
     for n in range(minlen, maxlen + 1):
